@@ -199,10 +199,12 @@ def resumable_from_c(ctext, structname, funcs):
     private_data.s_<func> in the generated struct."""
     res = {}
     for f in funcs:
-        m = re.search(r"struct \{\s*((?:[^{}]*?;\s*)*?)\} s_%s;" % re.escape(f["name"]), ctext)
         names = []
-        if m:
-            for mm in re.finditer(r"\bv_(\w+)\s*(?:\[[^\]]*\])*;", m.group(1)):
+        end = ctext.find("} s_%s;" % f["name"])
+        if end >= 0:
+            start = ctext.rfind("struct {", 0, end)
+            body = ctext[start:end] if start >= 0 else ""
+            for mm in re.finditer(r"\bv_(\w+)\s*(?:\[[^\]]*\])*;", body):
                 names.append(mm.group(1))
         res[f["name"]] = names
     return res
